@@ -42,6 +42,8 @@ type World struct {
 	tkai    *TKAI
 	value   *Value
 	deref   *Deref
+	posflow *PosFlow
+	siteCache []*siteInfo
 	recording, mayRecord map[*ssa.Function]bool
 	advancing map[*ssa.Function]bool
 }
